@@ -375,3 +375,71 @@ Example seeded_example :
   /\ lint_file false f <> lint_file false (seed_word 0 6 (p_wit ws_tab_inside) f)
   /\ forallb (fun p => in_ctx p (of_string "	// comment ") []) (firstn 20 typo_table) = true.
 Proof. vm_compute. repeat split; try reflexivity. discriminate. Qed.
+
+(* non-vacuity of the family premises, ALL premises of each theorem together, on a small file (i, k, l as in the theorem statements) *)
+Example family_premises_nonvacuous :
+  let l0 := of_string "	int x = f(a, b);" in let l2 := of_string "	// comment " in
+  let f := [l0; []; l2] in
+  (* seeded_flagged_typo: every pattern of the regenerated table, at the end of the comment line *)
+  (forallb (fun p => existsb (fun q => String.eqb (p_id q) (p_id p)) typo_table) (firstn 20 typo_table) = true
+   /\ nth_error f 2 = Some l2 /\ forallb (fun p => in_ctx p (firstn 12 l2) (skipn 12 l2)) (firstn 20 typo_table) = true)
+  (* template, trailing white space, spaces at line start, space after operator, tab inside, carriage return: column 5 / 17 / 0 of line 1 *)
+  /\ (nth_error f 0 = Some l0
+      /\ in_ctx template_pat (firstn 5 l0) (skipn 5 l0) = true /\ in_ctx ws_whitespaces (firstn 17 l0) (skipn 17 l0) = true
+      /\ in_ctx ws_spaces_start [] l0 = true /\ in_ctx ws_space_operator (firstn 5 l0) (skipn 5 l0) = true
+      /\ in_ctx ws_tab_inside (firstn 5 l0) (skipn 5 l0) = true /\ in_ctx ws_carriage_return (firstn 5 l0) (skipn 5 l0) = true)
+  (* seeded_flagged_catch *)
+  /\ ((1 <= length f)%nat /\ in_ctx catch_pat [] (of_string " (...) {") = true)
+  (* seeded_flagged_ws_spaces_middle_partial, seeded_flagged_ws_comma_partial *)
+  /\ (in_ctx ws_spaces_middle (firstn 5 l0) (skipn 5 l0) = true /\ no_strip_chars (firstn 5 l0 ++ p_wit ws_spaces_middle ++ skipn 5 l0) = true
+      /\ in_ctx ws_comma (firstn 5 l0) (skipn 5 l0) = true /\ no_strip_chars (firstn 5 l0 ++ p_wit ws_comma ++ skipn 5 l0) = true
+      /\ no_start None (p_re ws_comma) (firstn 5 l0) (p_wit ws_comma ++ skipn 5 l0) = true)
+  (* line length, consecutive blank lines, blank line near the end *)
+  /\ (line_length_limit <= Z.of_nat (length (repeat 120 200)) /\ is_blank [] = true /\ is_blank [9] = true /\ (1 <= length [l0])%nat
+      /\ [9] <> [] /\ forallb is_space [9] = true)
+  (* licence / pragma once: a file without either *)
+  /\ ((forall l, In l f -> starts_with lic_open l = false) /\ (forall l, In l f -> list_eqb l pragma_once = false))
+  (* regions: a balanced file whose end marker is deleted; a malformed marker *)
+  /\ (let open := of_string "// region x" in let close := of_string "// endregion" in
+      is_kind REnd close = true /\ count_kind ROpen ([open] ++ close :: [l0]) = count_kind REnd ([open] ++ close :: [l0])
+      /\ region_kind_of (of_string "// my region") = Some RInvalid)
+  (* exit status *)
+  /\ ((forall x, In x [0; 3; 0] -> 0 <= x) /\ In 3 [0; 3; 0] /\ 1 <= 3 /\ total_failures [0; 3; 0] < 256).
+Proof.
+  cbv zeta.
+  split; [vm_compute; repeat split; reflexivity|]. split; [vm_compute; repeat split; reflexivity|].
+  split; [split; [repeat constructor|vm_compute; reflexivity]|].
+  split; [vm_compute; repeat split; reflexivity|].
+  split; [vm_compute; repeat split; try reflexivity; try discriminate; repeat constructor|].
+  split; [split; intros l H; cbn [In] in H; repeat (destruct H as [<-|H]; [vm_compute; reflexivity|]); contradiction|].
+  split; [vm_compute; repeat split; reflexivity|].
+  split; [intros x H; cbn [In] in H; repeat (destruct H as [<-|H]; [vm_compute; discriminate|]); contradiction|].
+  vm_compute. repeat split; auto; discriminate.
+Qed.
+Print Assumptions family_premises_nonvacuous.
+
+(* non-vacuity of the dependency theorems on a toy configuration: define D = {b, c}; rule a -> D; directory names a, x/b, x/c.  The
+   expansion is the leaf product, the compiled pairs are paths (process_rules answers), and an include from directory a into x/d (no
+   rule reaches a name matching it) meets ALL premises of seeded_flagged_dependency, whereas x/b is allowed *)
+Example dependency_premises_nonvacuous :
+  let d : defines := [("D", ["b"; "c"])]%string in let lines : list rule := [("a", "D")]%string in
+  let ex : list rule := [("a", "b"); ("a", "c")]%string in
+  let table := [("a", Lit (of_string "a")); ("b", Lit (of_string "x/b")); ("c", Lit (of_string "x/c"))]%string in
+  process_defines 3 d lines = Some ex
+  /\ create_rules 3 d lines = Some ex
+  /\ process_rules ex <> None
+  /\ (forall a b, reach ex a b -> matches (name_regex table a) (of_string "a") = true ->
+        matches (name_regex table b) (fixed_dest (of_string "a") (of_string "x/d")) = true -> False)
+  /\ deps_allowed table ex (of_string "a") (of_string "x/d") = false
+  /\ deps_allowed table ex (of_string "a") (of_string "x/b") = true.
+Proof.
+  cbv zeta. split; [vm_compute; reflexivity|]. split; [vm_compute; reflexivity|]. split; [vm_compute; discriminate|].
+  split; [|vm_compute; split; reflexivity].
+  assert (Hedge : forall a b, In (a, b) [("a", "b"); ("a", "c")]%string -> a = "a"%string /\ (b = "b"%string \/ b = "c"%string)).
+  { intros a b H. cbn [In] in H. destruct H as [H|[H|[]]]; injection H as <- <-; auto. }
+  intros a b Hr _ Hm.
+  assert (Hb : b = "b"%string \/ b = "c"%string).
+  { clear Hm. induction Hr as [a b H|a b c H _ IH]; [exact (proj2 (Hedge a b H))|exact IH]. }
+  destruct Hb as [-> | ->]; vm_compute in Hm; discriminate Hm.
+Qed.
+Print Assumptions dependency_premises_nonvacuous.
